@@ -19,10 +19,17 @@ namespace occa {
       void wrapMemory(const void *ptr,
                             const udim_t bytes);
 
+      // Back the buffer with a host pointer given to malloc (use_host_pointer)
+      void useHostPointer(const void *ptr,
+                          const udim_t bytes);
+
       modeMemory_t* slice(const dim_t offset,
                           const udim_t bytes) override;
 
       void detach() override;
+
+      // ptr is a host pointer handed to malloc, freed only with own_host_pointer
+      bool hostPtr;
     };
   }
 }
